@@ -52,6 +52,6 @@ def run(run):
     check_trace(run, "edge-cover", "TraceConsole", "TraceConsole.cfg", tr, timeout=1500)
     sample_trace(run, tr, 10)
     ml, nr = (5, 6000) if run.thorough() else (4, 700)
-    sc = "Streams %d 0\nStreams %d 1\nRegOrders %d\nRegCase %d\nEvalEdge\nLongNames\nRandom %d %d\nTwos %d %d\n" % (ml, ml - 1, run.seed, run.seed + 3, run.seed + 1, nr, run.seed + 2, nr // 2)
+    sc = "Streams %d 0\nStreams %d 1\nRegOrders %d\nRegCase %d\nEvalEdge\nLongNames\nFloods\nRandom %d %d\nTwos %d %d\n" % (ml, ml - 1, run.seed, run.seed + 3, run.seed + 1, nr, run.seed + 2, nr // 2)
     tr2 = exec_script(run, exe, [], sc, run.path("streams.ndjson"), "streams+random", timeout=900)
     check_trace(run, "streams+random", "TraceConsole", "TraceConsole.cfg", tr2, timeout=1700)
